@@ -115,8 +115,11 @@ pub fn apply_fault(content: &mut Option<Vec<u8>>, op: &Op) -> bool {
     *content != before
 }
 
+/// A single allocation request this large for a zone file of at most a megabyte aborts the caller
+/// in any memory-limited deployment (container, ulimit): it is judged like an abort. Smaller
+/// requests are not the property's business (it speaks of panics, loops and aborts only).
 fn alloc_limit(file_len: usize) -> usize {
-    (64 << 20) + 64 * file_len
+    (1 << 30) + 64 * file_len
 }
 
 /// Executes a scenario against the real code. `oracle_for_recovery`: when the last `Replace`
@@ -1321,7 +1324,7 @@ pub fn check(tier: &str, seed: u64) -> i32 {
         "fault_enumeration",
         coverage,
         &[
-            "invariant judged: no panic (overflow checks and debug assertions on), no hang (20 s watchdog per call), no single allocation above 64 MiB + 64 x file size; which offset a damaged file yields is not judged",
+            "invariant judged: no panic (overflow checks and debug assertions on), no hang (20 s watchdog per call), no single allocation request above 1 GiB + 64 x file size (judged like an abort); which offset a damaged file yields is not judged",
             "std::fs::read retries EINTR and loops over short reads internally, so what astrolabe can observe is an error kind or some byte string; the simulated read loop reproduces the byte strings a racing non-atomic rewrite can produce",
         ],
         wall,
